@@ -34,7 +34,7 @@ else
     git -C "$WT" checkout -q -- . && git -C "$WT" clean -fdq
     git -C "$WT" apply "/verif/seeded/$d/patch.diff" || continue
     prop=$(echo "$d" | cut -c1-3)
-    case "$d" in C13b|C07c|C08d|C11d|C01e|C02e) prop="C03";; C11e) prop="C20";; esac
+    case "$d" in C13b|C07c|C08d|C11d|C01e|C02e|C01f|C04f|C09f) prop="C03";; C11e) prop="C20";; esac
     VERIF_REPO="$WT" ./check "$prop" --tier quick > /dev/null 2>&1
     harvest "$prop" "seed-$d"
   done
